@@ -5,6 +5,7 @@ static methods with keys spelled positionally / by keyword / by default, hold ta
 later, call dirty(), and block on their own requests in between, under seeded flush orders.  An
 online model (normalised key -> in-flight task) judges the identity of every returned task."""
 import copy
+import zlib
 
 from .. import real, gen
 from ..prog import SimError, HarnessError
@@ -133,8 +134,16 @@ class _World(object):
     def _make_fns(self):
         W = self
 
+        def user_keygetter(args, kwargs):
+            # a user-supplied key getter: keyed by (a, b) however the call is spelled
+            a = args[0] if args else kwargs["a"]
+            b = args[1] if len(args) > 1 else kwargs.get("b", 0)
+            return ("uid", a, b)
+
         def make_function(fnid):
-            @deduplicate()
+            # (with keygetter= both module functions produce equal keys for equal arguments;
+            # they are different functions and never share a task)
+            @deduplicate(keygetter=user_keygetter if W.case.get("custom_keygetter") else None)
             @A.asynq()
             def f(a, b=0, *, c=0):
                 return (yield from W._body(fnid, None, a, b, c))
@@ -301,8 +310,17 @@ class C12(object):
             # very wide fan-out: hundreds of different keys in flight at once, then the first again
             f, i, _, b = rng.choice(keyspace)
             clients[rng.randrange(len(clients))].insert(0, ["w", rng.choice([40, 257, 300, 520]), [f, i, 10, b, "pos"]])
-        return {"clients": clients, "prio": gen.gen_prio(rng, 3), "await_reentrant": rng.random() < 0.7,
+        case = {"clients": clients, "prio": gen.gen_prio(rng, 3), "await_reentrant": rng.random() < 0.7,
                 "probe_ctx": rng.random() < 0.4}
+        dg = zlib.crc32(repr(clients).encode())
+        case["custom_keygetter"] = dg % 3 == 0
+        if (dg // 7) % 10 == 0:
+            case["threads_seq"] = [0, (dg // 70) % 2]
+        if case["custom_keygetter"] and dg % 2 == 0:
+            # the two module functions asked for the same arguments in one yield
+            a, b = (dg // 6) % 3, (dg // 18) % 2
+            clients[0].insert(0, ["y", [[0, 0, a, b, "pos"], [1, 0, a, b, "kw"]]])
+        return case
 
     def sample(self, case, r):
         return case
@@ -372,6 +390,32 @@ class C12(object):
         def root():
             return (yield [c.asynq() for c in clients])
 
+        if case.get("threads_seq"):
+            # the key includes the thread: a call left in flight by a thread that has ended is not
+            # handed to a thread started later (which may well get the same thread identifier)
+            import threading
+            box = {}
+            a0, b0 = case["threads_seq"]
+
+            def first():
+                box["a"] = W.f[0].asynq(a0, b0)  # created, never awaited: stays in flight
+                W.tasks.append(box["a"])
+
+            def second():
+                t = W.f[0].asynq(a0, b0)
+                W.tasks.append(t)  # kept alive: task ids stay unique for the body-run bookkeeping
+                box["same"] = t is box["a"]
+                try:
+                    box["val"] = t.value()
+                except SimError as e:
+                    box["val"] = e.tag
+            for fn_ in (first, second):
+                th = threading.Thread(target=fn_)
+                th.start()
+                th.join()
+            W.probe("sequential_threads")
+            if box.get("same"):
+                out.append(("thread-scope", "a thread started after another had ended received that thread's in-flight task for key %r" % ((a0, b0),)))
         try:
             res = root()
         except HarnessError:
